@@ -136,6 +136,11 @@ pub fn safe_read(addr: u64, len: u64) -> Result<Vec<u8>, String> {
     let n = unsafe { libc::process_vm_readv(libc::getpid(), &local, 1, &remote, 1, 0) };
     if n == len as isize {
         Ok(v)
+    } else if n < 0 && matches!(std::io::Error::last_os_error().raw_os_error(), Some(libc::EPERM) | Some(libc::ENOSYS)) {
+        // the probing syscall is not available here: read directly (a wild pointer then crashes the
+        // child, which is still attributed to the case in flight)
+        unsafe { std::ptr::copy_nonoverlapping(addr as *const u8, v.as_mut_ptr(), len as usize) };
+        Ok(v)
     } else {
         Err(format!("read of {len} bytes at {addr:#x}: unmapped memory"))
     }
@@ -155,6 +160,9 @@ pub fn safe_write(addr: u64, data: &[u8]) -> Result<(), String> {
     let remote = libc::iovec { iov_base: addr as *mut _, iov_len: data.len() };
     let n = unsafe { libc::process_vm_writev(libc::getpid(), &local, 1, &remote, 1, 0) };
     if n == data.len() as isize {
+        Ok(())
+    } else if n < 0 && matches!(std::io::Error::last_os_error().raw_os_error(), Some(libc::EPERM) | Some(libc::ENOSYS)) {
+        unsafe { std::ptr::copy_nonoverlapping(data.as_ptr(), addr as *mut u8, data.len()) };
         Ok(())
     } else {
         Err(format!("write of {} bytes at {addr:#x}: unmapped memory", data.len()))
